@@ -155,14 +155,14 @@ in `'...o,...tho->...tho'` the first ellipsis is empty and the second one is the
 axis, i.e. the rank-0 instance of the generated contraction is applied to every row `a`. -/
 def infidelityDerivative0 {nA nT nH nO : Nat} (d : Nat) (omega : Vec R nO) (S : Vec R nO)
     (dF : Vector (Ten3 R nT nH nO) nA) : Ten3 R nA nT nH :=
-  dF.map fun dFa => infidTail d omega (Gen.gradient_infidelity_derivative_0_e0 S dFa)
+  dF.map fun dFa => infidTail d omega (Gen.gradient_infidelity_derivative_1_e0 S dFa)
 
 /-- … for a spectrum of shape `(k, n_omega)`, `k` = number of SELECTED noise operators
 (`util.parse_spectrum(spectrum, omega, n_idx)` broadcasts to `(len(n_idx), n_omega)`); rank-1
 instance of the generated contraction. -/
 def infidelityDerivative1 {nA nT nH nO : Nat} (d : Nat) (omega : Vec R nO) (S : Mat R nA nO)
     (dF : Vector (Ten3 R nT nH nO) nA) : Ten3 R nA nT nH :=
-  (Gen.gradient_infidelity_derivative_0_e1 S dF).map (infidTail d omega)
+  (Gen.gradient_infidelity_derivative_1_e1 S dF).map (infidTail d omega)
 
 /-- `PulseSequence.get_filter_function_derivative`, the part after the oracles: the control
 matrix is sliced with `n_idx` (`get_control_matrix(omega)[n_idx]`), the control-matrix derivative
